@@ -344,6 +344,14 @@ impl Sut for St {
         }
         self.check()
     }
+    fn warm(&self) {
+        let _ = catch(|| self.v.sum());
+        let _ = catch(|| self.v.product());
+        let _ = catch(|| self.v.dot(&self.v));
+        let _ = catch(|| self.v.norm_1());
+        let _ = catch(|| self.v.find(r(2)));
+        let _ = catch(|| self.v.abs());
+    }
     fn check(&self) -> Result<(), String> {
         eqv(&self.v, &self.m, "state")?;
         let n = self.m.len();
@@ -575,6 +583,10 @@ fn main() {
     explore(&ctx, "editing histories on Vector<Rat> (length <= 5)", inits.clone(), BfsOpts { max_depth: depth, state_cap: ctx.pick(1_000_000, 20_000_000) });
     if ctx.quick() {
         crosscheck_stateright(&ctx, "editing histories on Vector<Rat> (length <= 5)", inits, depth);
+    }
+    {
+        let inits = vec![St { v: Vector::empty(), m: vec![] }, St { v: Vector::create(vec![r(3), r(1), r(2)]), m: vec![r(3), r(1), r(2)] }];
+        explore_replayed(&ctx, "clone-free editing histories on one Vector<Rat>", inits, BfsOpts { max_depth: ctx.pick(6, 7), state_cap: 2_000_000 });
     }
     std::process::exit(ctx.finish());
 }
